@@ -201,7 +201,7 @@ class XyeEngine(Engine):
         f = rng.random()
         if f < 0.25 and n <= 200:
             if scn["sink"] == "mem":
-                scn["faults"] = {"mode": "enum_writes", "partial": rng.choice([0.0, 0.5])}
+                scn["faults"] = {"mode": "enum_writes", "partial": rng.choice([0.0, 0.5]), "err": rng.choice(seams.WRITE_ERRORS)}
             else:
                 scn["faults"] = {"mode": "fsize", "fracs": [rng.random() for _ in range(5)]}
         if scn["sink"] == "fileobj":
@@ -688,7 +688,7 @@ class XyeEngine(Engine):
         self._load_and_compare(s2, ctx, target, "second dataset, same target")
 
     def _write_fault(self, scn, ctx, k, partial, retry):
-        sink = seams.SimStringIO(ctx=ctx, fail_at=k, partial=partial)
+        sink = seams.SimStringIO(ctx=ctx, fail_at=k, partial=partial, err=scn["faults"].get("err", "ENOSPC"))
         ctx.fault_configured("enospc_at_write_ordinal")
         exc = self._save(scn, ctx, sink, label=f"save_fault_k{k}")
         if not sink.sim_fired:
@@ -746,7 +746,7 @@ class XyeEngine(Engine):
         hint = (violation or {}).get("hint") or {}
         if "write_k" in hint and s["faults"]["mode"] == "enum_writes":
             c = copy.deepcopy(s)
-            c["faults"] = {"mode": "write_k", "k": hint["write_k"]}
+            c["faults"] = {"mode": "write_k", "err": s["faults"].get("err", "ENOSPC"), "k": hint["write_k"]}
             yield c
         if "fsize_k" in hint and s["faults"]["mode"] == "fsize":
             c = copy.deepcopy(s)
